@@ -285,6 +285,28 @@ theorem C16_out_of_range_is_error (c : NumCfg α) (n : List (Link α)) (i : Nat)
   have := h.refs i l hi hl
   omega
 
+/-- The two "no coincident switch points" rules say the same thing once references are
+    reciprocated: the mirror-image rule follows from the other rules.  (So dropping ONE of the two
+    coincident-switch tests from the Rust loop does not change any verdict — an equivalent mutant.) -/
+theorem switchPrev_of_switchNext (c : NumCfg α) (n : List (Link α))
+    (links : ∀ i l, 1 ≤ i → n[i]? = some l → LinkOK c l)
+    (prevRecip : ∀ i l, 1 ≤ i → n[i]? = some l → ∀ j, (j = l.idxPrev ∨ j = l.idxPrevAlt) → j ≠ 0 →
+      ∃ m, n[j]? = some m ∧ (m.idxNext = i ∨ m.idxNextAlt = i))
+    (switchNext : ∀ i l, 1 ≤ i → n[i]? = some l → l.idxNextAlt ≠ 0 →
+      ∀ j, (j = l.idxNext ∨ j = l.idxNextAlt) → ∀ m, n[j]? = some m → m.idxPrevAlt = 0) :
+    ∀ i l, 1 ≤ i → n[i]? = some l → l.idxPrevAlt ≠ 0 →
+      ∀ j, (j = l.idxPrev ∨ j = l.idxPrevAlt) → ∀ m, n[j]? = some m → m.idxNextAlt = 0 := by
+  intro i l hi hl hne j hj m hm
+  have hj0 : j ≠ 0 := by
+    rcases hj with rfl | rfl
+    · exact (links i l hi hl).prevAlt hne
+    · exact hne
+  obtain ⟨m', hm', hback⟩ := prevRecip i l hi hl j hj hj0
+  rw [hm] at hm'; cases hm'
+  by_contra hm0
+  have := switchNext j m (by omega) hm hm0 i (by rcases hback with h | h <;> simp [h]) l hl
+  exact hne this
+
 /-! ## hash-map iteration order -/
 
 theorem LinkEquiv.symm {l l' : Link α} (h : LinkEquiv l l') : LinkEquiv l' l := by
